@@ -389,6 +389,23 @@ def judge_A(mol, keep=True):
     if len(back._atoms) != len(nums):
         return [('atom-count', f'{len(nums)} -> {len(back._atoms)}')]
     pos = dict(zip(nums, back._atoms))       # position map: i-th atom <-> i-th atom
+    idx = {n: i for i, n in enumerate(nums)}
+    donors = set(donor_elements())
+    dative_end = set()                        # donor atoms that RDKit was handed as the RECEIVING end of a metal's dative bond
+    for b in rd.GetBonds():
+        if str(b.GetBondType()) == 'DATIVE' and is_metal(mol._atoms[nums[b.GetBeginAtomIdx()]]) and \
+                mol._atoms[nums[b.GetEndAtomIdx()]].atomic_symbol in donors:
+            dative_end.add(b.GetEndAtomIdx())
+    for n, m, b in mol.bonds():
+        if int(b) != 8:
+            continue
+        a1, a2 = mol._atoms[n], mol._atoms[m]
+        for d, mt in ((n, m), (m, n)):
+            if mol._atoms[d].atomic_symbol in donors and is_metal(mol._atoms[mt]):
+                rb = rd.GetBondBetweenAtoms(idx[d], idx[mt])
+                if rb is None or str(rb.GetBondType()) != 'DATIVE' or rb.GetEndAtomIdx() != idx[mt]:
+                    bad.append(('dative-direction', f'coordination bond {mol._atoms[d].atomic_symbol}{d}~{mol._atoms[mt].atomic_symbol}{mt} is not a '
+                                                    f'dative bond ending at the metal'))
     for i, (n, a) in enumerate(mol._atoms.items()):
         b = back._atoms[pos[n]]
         for what, x, y in (('element', a.atomic_number, b.atomic_number), ('isotope', a._isotope, b._isotope),
@@ -398,7 +415,7 @@ def judge_A(mol, keep=True):
                            ('coordinates', (a.x, a.y), (b.x, b.y))):
             if x != y:
                 if what == 'hydrogens' and y > x and rd.GetAtomWithIdx(i).GetNumImplicitHs() == y - x \
-                        and rd.GetAtomWithIdx(i).GetNumExplicitHs() == x:
+                        and rd.GetAtomWithIdx(i).GetNumExplicitHs() == x and i not in dative_end:
                     # the bridge wrote chython's count; RDKit's valence model then filled the atom up (known finding)
                     what = 'hydrogens/rdkit-adds-implicit-H'
                 bad.append((what, f'atom {n}: {x!r} -> {y!r}'))
@@ -593,6 +610,16 @@ ISO_STEREO = ['[12CH3][C@H](C)O', '[12CH3][C@@H](C)O', '[13CH3][C@H](C)O', '[12C
               '[35Cl][C@H](Cl)C', '[35Cl][C@@H]([37Cl])C', '[16OH][C@H](O)C', '[14NH2][C@H](N)C', '[19F][C@](F)(Cl)Br',
               '[127I][C@H](I)C', '[12CH3]/C(C)=C/F', '[35Cl]/C(Cl)=C/C', 'C/C([12CH3])=C(/C)[12CH3]', '[12CH3]C[C@H](CC)O',
               '[1H][C@](F)(Cl)Br', '[12CH3][C@]1(C)CC[C@H](O)CC1', 'O[C@H]([12CH3])[C@@H](C)O']
+# stereo elements that are stereogenic only THROUGH the labels of other stereo elements (no other labelled element of the
+# other kind anywhere in the molecule): centre between two E/Z branches, double bond between two E/Z branches / two centres,
+# centre between two centres, several equivalent double bonds with different labels, ring cis/trans pairs
+DEPENDENT = ['C/C=C/[C@H](O)/C=C\\C', 'C/C=C/[C@@H](O)/C=C\\C', 'CC/C=C/[C@](C)(N)/C=C\\CC', 'CC/C=C/[C@@](C)(N)/C=C\\CC',
+             'C/C=C\\[C@H](Cl)/C=C/C', 'F/C=C/[C@H](C)/C=C\\F', 'C/C=C/C(/C=C\\C)=N/O', 'C/C=C/C(/C=C\\C)=N\\O',
+             'C/C=C/C(/C=C\\C)=C/C', 'C/C=C/CC/C=C\\C', 'C/C=C/CC/C=C/C', 'C/C=C\\CC/C=C\\C', 'C/C=C\\c1ccc(/C=C/C)cc1',
+             'C/C=C\\C(/C=C/C)=C(C)C', 'C/C=C([C@H](C)O)/[C@@H](C)O', 'C/C=C([C@H](C)O)\\[C@@H](C)O',
+             'C[C@H](O)[C@H](F)[C@@H](C)O', 'C[C@H](O)[C@@H](F)[C@@H](C)O', 'C[C@H]1C[C@@H](C)C1', 'C[C@H]1C[C@H](C)C1',
+             'O[C@H]1C[C@@H](O)C[C@H](O)C1', 'C/C=C/[C@H]1C[C@@H](/C=C\\C)C1', 'C/C=C/C1CC(/C=C\\C)C1',
+             'C/C=C/[C@H](O)/C=C\\C.[Na+].[Cl-]', 'C/C=C/[C@H](O)/C=C\\CC[C@H](C)O']
 # RDKit molecules below RDKit's own default valence (accepted by both toolkits): the known finding seen from the RDKit side
 LOWVAL_RD = ['C[Si-](C)(C)C', 'C[PH-](C)(C)C', 'C[Cl+](C)C', 'C[SiH2-]C']
 OTHER = [
@@ -643,6 +670,8 @@ def source_smiles(ctx):
                 out.append((f'stereo[{i}]~{k}', t))
     out += [(f'lowval[{i}]', s) for i, s in enumerate(LOWVAL_RD)]
     out += [(f'isostereo[{i}]', s) for i, s in enumerate(ISO_STEREO)]
+    out += [(f'dependent[{i}]', s) for i, s in enumerate(DEPENDENT)]
+    out += donor_smiles(ctx)
     out += isotope_smiles(ctx)
     smis = molgen.corpus_smiles()
     k = 150 if ctx.quick else 1500
@@ -650,6 +679,54 @@ def source_smiles(ctx):
     idx = rng.sample(stereo_idx, min(k // 2, len(stereo_idx))) + rng.sample(range(len(smis)), k // 2)
     out += [(f'corpus[{i}]', smis[i]) for i in idx]
     out += [(f'handmade[{i}]', s) for i, s in enumerate(molgen.HANDMADE)]
+    return out
+
+
+# Lewis acids / not donors although chython lists them as forming single bonds (boron accepts: N->B; astatine: no chemistry)
+NOT_DONORS = {'B', 'At'}
+METALS_SAMPLE = ['Pd', 'Pt', 'Cu', 'Fe', 'Li', 'Mg', 'Al', 'Zn', 'Ti', 'Sn']
+
+
+def donor_elements():
+    """every element chython classifies as a non-metal (forms single bonds) except the recorded acceptors: the atoms that can
+    donate an electron pair to a metal. Independent of `_inorganic`."""
+    from chython.periodictable import Element
+    out = []
+    for cls in Element.__subclasses__():
+        try:
+            a = cls()
+            if a.is_forming_single_bonds and cls.__name__ not in NOT_DONORS:
+                out.append(cls.__name__)
+        except Exception:
+            continue
+    return out
+
+
+def is_metal(atom):
+    return not atom.is_forming_single_bonds and atom.atomic_number not in (2, 10, 18, 36, 54, 86, 118)
+
+
+def donor_smiles(ctx):
+    """coordination (order 8) bonds from EVERY donor element to metals, written donor-first and metal-first (the atom order decides
+    which end `bonds()` yields first), saturated with methyl groups where the donor needs them."""
+    rng = ctx.rng
+    subst = {'H': 0, 'C': 3, 'N': 3, 'O': 2, 'F': 1, 'Si': 3, 'P': 3, 'S': 2, 'Cl': 1, 'Ge': 3, 'As': 3, 'Se': 2, 'Br': 1, 'Sb': 3, 'Te': 2, 'I': 1}
+    out = []
+    for x in donor_elements():
+        k = subst.get(x)
+        if k is None:
+            continue
+        metals = METALS_SAMPLE if not ctx.quick else rng.sample(METALS_SAMPLE, 3)
+        for mt in metals:
+            tail = '(C)' * max(k - 1, 0)
+            if k == 0:
+                donor_first, metal_first = f'[{x}]~[{mt}]', f'[{mt}]~[{x}]'
+            else:
+                donor_first, metal_first = f'C[{x}]{tail}~[{mt}]', f'[{mt}]~[{x}]{tail}C'
+            out.append((f'donor[{x}->{mt}:donor-first]', donor_first))
+            out.append((f'donor[{x}->{mt}:metal-first]', metal_first))
+            if k and mt in ('Pd', 'Pt', 'Cu', 'Fe', 'Zn', 'Ti') and rng.random() < 0.5:   # RDKit caps the valence of main-group metals
+                out.append((f'donor[{x}->{mt}:bis]', f'C[{x}]{tail}~[{mt}](Cl)(Cl)~[{x}]{tail}C'))
     return out
 
 
